@@ -11,8 +11,8 @@
   EXACTLY the state-changing operations `Crash.newOps` — same operations, same order, same values: for an
   unusable prior `create_dir_all` (iff there is a parent directory), `File::create`, `write_u32(MAGIC0)`,
   `write_u32(MAGIC1)`, `write_u32(72)`, `write_u16(0)`, `write_u16(0)`, `write_all` of 56 zero bytes, `sync_all`;
-  for a usable but short file `set_len(72)`; in every case finally `version.store(1, Relaxed)` through the
-  mapping.  `Properties/WriterNewProg.lean` proves that these are the operation events of `Crash.script`.
+  for a usable but short file `set_len(72)`; in every case finally `version.store(1, <ordering>)` through the
+  mapping (the ordering is whatever the source names, see `new_eq`).  `Properties/WriterNewProg.lean` proves that these are the operation events of `Crash.script`.
   (Queries — open, read, errno, mmap, metadata, stream_position — are not compared: `isMutEv`.)
 -/
 import ClockBound.Proofs.RsWriterNewFinal
@@ -24,11 +24,15 @@ open ClockBound ClockBound.Rs ClockBound.Generated ClockBound.Rs.DictShm ClockBo
 /-- the interpreter's context: generated tables, the dictionary, the two struct sizes, an input stream -/
 abbrev ctx (inp : Nat → Value) : Ctx := Code.ctxWith 0 DictShm.ext EmbedShm.sizes inp
 
+/-- `o` is the memory ordering the source names for the final version store (`Relaxed` at HEAD), found by
+    evaluation; it is the model's `SL.Ann.wVersion`, which no property constrains (`Ann.adequate` does not mention
+    it), so the statement does not pin it: a refactoring that strengthens it keeps the theorem. -/
 theorem new_eq (st : FileState) (hdir : st ≠ .directory) (hst : CodeTieHeader.FileState.hdrInRange st)
     (parent : String) (fd : Nat) (hfd : fd ≤ 2147483647) :
+    ∃ o : SL.Ord,
     (run (ctx (streamOf (newAnswers fd (parent != "") st))) "ShmWriter::new" .unit [pathObj "shm" parent]).okWith isMutEv
     = some (writerValue SEGMENT_SIZE,
-        (Crash.newOps (Crash.fileAOf st) (parent != "")).map (opValue (pathObj "shm" parent) (pathObj parent ""))) :=
+        (Crash.newOps (Crash.fileAOf st) (parent != "")).map (opValue o (pathObj "shm" parent) (pathObj parent ""))) :=
   WriterNewProof.new_tie st hdir (by intro bs h; subst h; exact hst) parent fd hfd
 
 /-- … hence, as events of the crash sweep: the operations the code performs are the operation events of
